@@ -462,4 +462,5 @@ pub fn run(eng: &mut Engine) {
         || strategy(thorough),
         check,
     );
+    eng.fuzz_part_from_env("fuzz_c09");
 }
